@@ -73,6 +73,15 @@ func runC20(tier string, seed int64, si, sn int, rep *monitor.Report, note func(
 					evals++
 				}
 			}
+			// the refresh (always call 0) answers without one of the registered groups
+			for _, k := range []sim.FaultKind{sim.FOmitFirst, sim.FOmitLast} {
+				c := engine.CaseSpec{Profile: "enum", Seed: seed, Index: b, Fault: engine.FaultSpec(s, []int{0}, []sim.FaultKind{k})}
+				note(c.ID())
+				if _, err := engine.RunCase(c, rep, nil); err != nil {
+					rep.Violate(P, "replay-error", "%s: %v", c.ID(), err)
+				}
+				evals++
+			}
 			rep.Covered(P, "enum:single-failures-complete")
 			// double failures: all pairs when the scan is small, sampled otherwise
 			type pr struct{ i, j int }
